@@ -27,17 +27,77 @@ def _member_key(a):
 RELEASE = ("free", "close", "fclose", "munmap")
 
 
-def free_sites(P, fns):
-    """[(fn, call, member expr, root DeclRefExpr)] for free / close / fclose / munmap of a member path rooted in a
-    pointer parameter or pointer local."""
+def _param_freers(P):
+    """Names of library functions that release their first parameter (destroy/free helpers), from the
+    ownership summaries."""
+    from .ownership import frees_param_summaries
+    return set(n for n, idx in frees_param_summaries(P).items() if 0 in idx)
+
+
+def _alias_def(fn, x, at):
+    """The one definition of local x that is in force at node `at`: every other definition comes later in the
+    function and `at` is not inside a loop (so none of them can flow back). None when that cannot be said."""
+    from ..canon import info
+    if x is None or x.k != "DeclRefExpr" or x.get("dk") != "local":
+        return None
+    li = info(fn)
+    d = x.get("d")
+    if d in li.modified:
+        return None
+    before = [e for e in li.defs.get(d, []) if e.i < at.i]
+    if len(before) != 1 or any(a.k in ("WhileStmt", "ForStmt", "DoStmt") for a in at.ancestors()):
+        return None
+    if not fn.cfg.node_dominates(before[0], at):
+        return None
+    return before[0]
+
+
+def _alias_of(fn, x, at):
+    """The member expression a local stands for at `at`: `T *p = X->f;` is the definition in force there."""
+    d0 = _alias_def(fn, x, at)
+    d0 = d0.strip_casts() if d0 is not None else None
+    return d0 if d0 is not None and d0.k == "MemberExpr" else None
+
+
+def _may_keep(P, fn, alias_def, call, member):
+    """Between `p = X->f` and the release of p, can X->f still hold p?  False when a function of the file called in
+    between stores the member on every path to its return; True when nothing in between stores it or such a
+    function has a return path without the store."""
+    rec, name = member
+    lo, hi = alias_def.i, call.i
+    for c in fn.calls():
+        if not (lo < c.i < hi) or not c.callee:
+            continue
+        for g in P.by_name.get(c.callee, []):
+            if g.cfg is None or g.file != fn.file:
+                continue
+            stores = lambda e: is_assign(e) and e.op == "=" and e.c[0].strip().k == "MemberExpr" and \
+                e.c[0].strip().name == name and e.c[0].strip().get("rec") == rec
+            if not any(stores(e) for e in g.body.walk()):
+                continue
+            if reaches_exit_avoiding(g.cfg, stores, None, (g.cfg.entry, 0)) is None:
+                return False        # replaced on every path: the local is the only holder left
+    return True
+
+
+def free_sites(P, fns, releasers=()):
+    """[(fn, call, member expr, root DeclRefExpr)] for free / close / fclose / munmap (or a named releaser) of a
+    member path rooted in a pointer parameter or pointer local - given directly or through a local that caches it."""
     out = []
     for fn in fns:
         if fn.body is None or fn.cfg is None:
             continue
-        for c in fn.calls(*RELEASE):
+        for c in fn.calls(*(RELEASE + tuple(releasers))):
             if not c.args():
                 continue
             a = c.args()[0].strip_casts()
+            if a is not None and a.k == "DeclRefExpr" and c.callee in releasers:
+                m = _alias_of(fn, a, c)
+                if m is not None:
+                    d0 = _alias_def(fn, a, c)
+                    if not _may_keep(P, fn, d0, c, _member_key(m)):
+                        continue
+                    a = m
             if a is None or a.k != "MemberExpr":
                 continue
             r = _root(a)
@@ -78,12 +138,15 @@ def _unassigned_exit(fn, call, text, root=None, destructors=()):
 
 def check(ctx, fns, rule="R27.stale-member", key_prefix="stale-member"):
     P = ctx.P
-    sites = free_sites(P, fns)
-    # who frees which member anywhere in the library
+    # who frees which member anywhere in the library (directly, or by handing it to a function that frees its parameter)
+    freers = _param_freers(P)
+    lib = [f for f in P.functions.values() if P.rel(f.file).startswith("src/")]
     freed_by = {}       # (member, release function) -> destructors (functions that release the member and the object itself)
-    for fn, c, a, r in free_sites(P, [f for f in P.functions.values() if P.rel(f.file).startswith("src/")]):
-        if _releases_root(P, fn, r) and r.get("dk") == "param":
+    for fn, c, a, r in free_sites(P, lib, tuple(freers)):
+        if _releases_root(P, fn, r) and r.get("dk") == "param" and src(a.c[0].strip_casts()) == r.name:
             freed_by.setdefault(_member_key(a) + (c.callee,), set()).add(fn.name)
+    member_releasers = tuple(sorted(set(k[2] for k in freed_by if k[2] not in RELEASE)))
+    sites = free_sites(P, fns, member_releasers)
     alldestr = set(x for v in freed_by.values() for x in v)
     n = 0
     per = {}
